@@ -3,6 +3,7 @@
 package hlog
 
 import (
+	"context"
 	"net/http"
 	"net/url"
 	"time"
@@ -69,13 +70,21 @@ func vChain(base zerolog.Logger, mask int, final http.Handler) http.Handler {
 	return NewHandler(base)(h)
 }
 
+// vParentCtx: when set, every request context already carries a logger from a shared parent
+// context (http.Server.BaseContext, an outer middleware).
+var vParentCtx context.Context
+
 func vServe(chain http.Handler, q vReq, etag string) {
 	w := &vRW{h: http.Header{}}
 	if etag != "" {
 		w.h["Etag"] = []string{etag}
 		w.h["X-Resp"] = []string{etag}
 	}
-	chain.ServeHTTP(w, q.build())
+	r := q.build()
+	if vParentCtx != nil {
+		r = r.WithContext(vParentCtx)
+	}
+	chain.ServeHTTP(w, r)
 }
 
 func VH_C18_isolation() {
@@ -164,6 +173,11 @@ func VH_C18_overlap() {
 	mask := []int{1 << 1, 1 << 5, 0x7fff}[which] // method / user-agent / all handlers
 	a := vReq{method: "GET", remote: "10.0.0.1:1111", host: "a.example:80", proto: "HTTP/1.1", ua: "agentA", ref: "refA", path: "/a", custom: "customA"}
 	b := vReq{method: "POST", remote: "10.0.0.2:2222", host: "b.example:81", proto: "HTTP/2.0", ua: "agentB", ref: "refB", path: "/b", custom: "customB"}
+	vParentCtx = nil
+	if zzverif.Choice(2) == 1 {
+		parent := zerolog.New(out).With().Str("parent", "p").Logger()
+		vParentCtx = parent.WithContext(context.Background())
+	}
 	var chain http.Handler
 	depth := 0
 	final := http.HandlerFunc(func(w http.ResponseWriter, r *http.Request) {
